@@ -27,6 +27,9 @@ pub mod secp256k1_scalar;
 pub mod types;
 pub mod zero_poly_coset;
 
+#[cfg(feature = "verif_hooks")]
+pub mod verif_hooks;
+
 #[cfg(test)]
 mod field_testing;
 
